@@ -386,7 +386,7 @@ impl<'a> Ctx<'a> {
         let mut names: Vec<String> = if pk == Kind::Union {
             vec![]
         } else {
-            self.s.types[parent].fields.iter().map(|f| f.name.clone()).collect()
+            self.s.types[parent].fields.iter().map(|f| f.name.clone()).filter(|n| !self.s.narrowed.contains(&(parent.to_string(), n.clone()))).collect()
         };
         // prefer leaf fields when deep
         if depth >= self.o.max_depth {
